@@ -43,13 +43,16 @@ Record cfg := mkCfg
   { fix_close : bool;   (* Proxy: defer sc.Close() right after the dial *)
     fix_done : bool;    (* a direction that ends closes `done`; relayFrames selects on it *)
     fix_abort : bool;   (* emitEligibleFrames: select { output <- f ; <-done: return } *)
-    werr_buffered : bool }. (* relayFrames: writerErr := make(chan error, 1) (as in the original);
-                               false = unbuffered: the writer must hand its error to the reader's select *)
+    werr_buffered : bool; (* relayFrames: writerErr := make(chan error, 1) (as in the original);
+                             false = unbuffered: the writer must hand its error to the reader's select *)
+    credit_unlocks : bool }. (* sendWindowUpdates releases destMu on every path (defer Unlock, as in the
+                               original); false = the early `return err` leaves destMu locked *)
 
-Definition cfg_orig : cfg := mkCfg false false false true.
-Definition cfg_fixed : cfg := mkCfg true true true true.
+Definition cfg_orig : cfg := mkCfg false false false true true.
+Definition cfg_fixed : cfg := mkCfg true true true true true.
 Definition cfg_src : cfg :=
-  mkCfg src_closes_upstream src_done_signal src_emit_abortable (negb (Nat.eqb writer_err_capacity 0)).
+  mkCfg src_closes_upstream src_done_signal src_emit_abortable (negb (Nat.eqb writer_err_capacity 0))
+        src_destmu_released_on_every_path.
 
 Definition cap : nat := output_channel_size.
 
@@ -72,13 +75,17 @@ Inductive rpc :=
 | RSel                                     (* at the select *)
 | RLock (tgt : side) (post : bool) (k : nat)   (* waiting for tgt's flowMu *)
 | REmit (tgt : side) (post : bool) (k : nat)   (* holds tgt's flowMu, k sends into tgt's output to go *)
+| RDPend (x : side) (credit : bool) (cont : option nat)
+      (* inside processFrame, committed to a write toward side x under that destination's destMu
+         (waiting for the mutex, or in Write): credit = the WINDOW_UPDATEs of sendWindowUpdates
+         (then cont = Some k: enqueue/emit k follows), otherwise a forwarded PING/GOAWAY/SETTINGS *)
 | RDoneSend                                (* deferred readerDone <- struct{}{} *)
 | RExited                                  (* relayFrames returned; closure's defers not yet run *)
 | RRet.                                    (* endSession() (if any) and wg.Done() done *)
 
 Inductive wpc :=
 | WRun                (* in its select *)
-| WBlocked            (* inside f.send: Write toward a peer that has stopped reading (holds destMu) *)
+| WPend               (* has taken a frame from output: waiting for destMu or inside Write *)
 | WErrSend            (* blocked in `writerErr <- err` (unbuffered writerErr only) *)
 | WGone.
 Inductive mpc := MPreface | MWait | MReturned.
@@ -104,21 +111,23 @@ Record state := mkS
     cc_closed : bool;                     (* Proxy's caller closed the client connection (after the return) *)
     closing : bool;                       (* the proxy's closing channel is closed *)
     done : bool;                          (* the session's done channel is closed *)
-    trig : bool }.                        (* ghost: a session-ending event has happened *)
+    trig : bool;                          (* ghost: a session-ending event has happened *)
+    dleak_c : bool; dleak_s : bool }.     (* the destMu guarding writes toward the client / the server was left
+                                             locked by a goroutine that has gone *)
 
 Definition d0 : dstate := mkD RNot WGone false false 0 0 RFGone [].
-Definition init : state := mkS d0 d0 MPreface Open Open false false false false false false false.
+Definition init : state := mkS d0 d0 MPreface Open Open false false false false false false false false false.
 
 Definition getd (s : state) (d : side) : dstate := match d with Cl => dc s | Sv => ds s end.
 
 Definition setd (s : state) (d : side) (x : dstate) : state :=
   match d with
-  | Cl => mkS x (ds s) (main s) (cli s) (srv s) (wbroken_c s) (wbroken_s s) (sc_closed s) (cc_closed s) (closing s) (done s) (trig s)
-  | Sv => mkS (dc s) x (main s) (cli s) (srv s) (wbroken_c s) (wbroken_s s) (sc_closed s) (cc_closed s) (closing s) (done s) (trig s)
+  | Cl => mkS x (ds s) (main s) (cli s) (srv s) (wbroken_c s) (wbroken_s s) (sc_closed s) (cc_closed s) (closing s) (done s) (trig s) (dleak_c s) (dleak_s s)
+  | Sv => mkS (dc s) x (main s) (cli s) (srv s) (wbroken_c s) (wbroken_s s) (sc_closed s) (cc_closed s) (closing s) (done s) (trig s) (dleak_c s) (dleak_s s)
   end.
 
 Definition set_trig (s : state) : state :=
-  mkS (dc s) (ds s) (main s) (cli s) (srv s) (wbroken_c s) (wbroken_s s) (sc_closed s) (cc_closed s) (closing s) (done s) true.
+  mkS (dc s) (ds s) (main s) (cli s) (srv s) (wbroken_c s) (wbroken_s s) (sc_closed s) (cc_closed s) (closing s) (done s) true (dleak_c s) (dleak_s s).
 
 Definition with_rd (x : dstate) (r : rpc) : dstate :=
   mkD r (wr x) (wfailed x) (werr x) (chan x) (queued x) (rf x) (inflight x).
@@ -159,9 +168,10 @@ Inductive label :=
 | ITake (d : side) (wf : bool)
 | ISelErr (d : side) | ISelClosing (d : side) | ISelDone (d : side)
 | ILock (d : side) | ISend (d : side) | IAbort (d : side) | IUnlock (d : side) (wf : bool)
-| IWrite (d : side) (wf : bool)
-| IWriteBlock (d : side)              (* the writer takes a frame and blocks in Write *)
-| IWriteUnblock (d : side) (wf : bool) (* the blocked Write completes / fails *)
+| IDWrite (d : side) (wf : bool)  (* the reader's write under destMu (credit / forwarded control frame) completes / fails *)
+| IWrite (d : side) (wf : bool)   (* the writer drains a frame without sending it (after a failure; wf must be false) *)
+| IWTake (d : side)               (* the writer takes a frame from output *)
+| IWSend (d : side) (wf : bool)   (* ... gets destMu and its Write completes / fails *)
 | IErrHandoff (d : side)              (* unbuffered writerErr: the reader's select takes the writer's error *)
 | IHandshake (d : side) | IStop (d : side)
 | IJoin | ICallerClose.
@@ -174,8 +184,18 @@ Definition internal (l : label) : bool :=
 
 Definition set_remote (s : state) (x : side) (c : conn) : state :=
   match x with
-  | Cl => mkS (dc s) (ds s) (main s) c (srv s) (wbroken_c s) (wbroken_s s) (sc_closed s) (cc_closed s) (closing s) (done s) true
-  | Sv => mkS (dc s) (ds s) (main s) (cli s) c (wbroken_c s) (wbroken_s s) (sc_closed s) (cc_closed s) (closing s) (done s) true
+  | Cl => mkS (dc s) (ds s) (main s) c (srv s) (wbroken_c s) (wbroken_s s) (sc_closed s) (cc_closed s) (closing s) (done s) true (dleak_c s) (dleak_s s)
+  | Sv => mkS (dc s) (ds s) (main s) (cli s) c (wbroken_c s) (wbroken_s s) (sc_closed s) (cc_closed s) (closing s) (done s) true (dleak_c s) (dleak_s s)
+  end.
+
+Definition dleak (s : state) (x : side) : bool := match x with Cl => dleak_c s | Sv => dleak_s s end.
+
+Definition set_dleak (s : state) (x : side) : state :=
+  match x with
+  | Cl => mkS (dc s) (ds s) (main s) (cli s) (srv s) (wbroken_c s) (wbroken_s s) (sc_closed s) (cc_closed s)
+              (closing s) (done s) (trig s) true (dleak_s s)
+  | Sv => mkS (dc s) (ds s) (main s) (cli s) (srv s) (wbroken_c s) (wbroken_s s) (sc_closed s) (cc_closed s)
+              (closing s) (done s) (trig s) (dleak_c s) true
   end.
 
 (* the reader of direction d leaves the loop after a failed write *)
@@ -200,7 +220,7 @@ Definition step (c : cfg) (s : state) (l : label) : option state :=
   | EStall x =>
       let keep_trig (s1 : state) :=
         mkS (dc s1) (ds s1) (main s1) (cli s1) (srv s1) (wbroken_c s1) (wbroken_s s1) (sc_closed s1)
-            (cc_closed s1) (closing s1) (done s1) (trig s) in
+            (cc_closed s1) (closing s1) (done s1) (trig s) (dleak_c s1) (dleak_s s1) in
       match remote s x with
       | Open => Some (keep_trig (set_remote s x Stalled))
       | Half => Some (keep_trig (set_remote s x HalfStalled))
@@ -208,21 +228,21 @@ Definition step (c : cfg) (s : state) (l : label) : option state :=
       end
   | EWriteFail x =>
       Some (match x with
-            | Cl => mkS (dc s) (ds s) (main s) (cli s) (srv s) true (wbroken_s s) (sc_closed s) (cc_closed s) (closing s) (done s) (trig s)
-            | Sv => mkS (dc s) (ds s) (main s) (cli s) (srv s) (wbroken_c s) true (sc_closed s) (cc_closed s) (closing s) (done s) (trig s)
+            | Cl => mkS (dc s) (ds s) (main s) (cli s) (srv s) true (wbroken_s s) (sc_closed s) (cc_closed s) (closing s) (done s) (trig s) (dleak_c s) (dleak_s s)
+            | Sv => mkS (dc s) (ds s) (main s) (cli s) (srv s) (wbroken_c s) true (sc_closed s) (cc_closed s) (closing s) (done s) (trig s) (dleak_c s) (dleak_s s)
             end)
   | EClosing =>
-      Some (mkS (dc s) (ds s) (main s) (cli s) (srv s) (wbroken_c s) (wbroken_s s) (sc_closed s) (cc_closed s) true (done s) true)
+      Some (mkS (dc s) (ds s) (main s) (cli s) (srv s) (wbroken_c s) (wbroken_s s) (sc_closed s) (cc_closed s) true (done s) true (dleak_c s) (dleak_s s))
   | IPreface ok =>
       match main s with
       | MPreface =>
           if ok then
             let st (x : dstate) := mkD RSel WRun false false 0 0 RFBlocked (inflight x) in
             Some (mkS (st (dc s)) (st (ds s)) MWait (cli s) (srv s) (wbroken_c s) (wbroken_s s)
-                      (sc_closed s) (cc_closed s) (closing s) (done s) (trig s))
+                      (sc_closed s) (cc_closed s) (closing s) (done s) (trig s) (dleak_c s) (dleak_s s))
           else
             Some (mkS (dc s) (ds s) MReturned (cli s) (srv s) (wbroken_c s) (wbroken_s s)
-                      (sc_closed s || fix_close c) (cc_closed s) (closing s) (done s) true)
+                      (sc_closed s || fix_close c) (cc_closed s) (closing s) (done s) true (dleak_c s) (dleak_s s))
       | _ => None
       end
   | IRead d =>
@@ -244,22 +264,20 @@ Definition step (c : cfg) (s : state) (l : label) : option state :=
       | _ => None
       end
   | ITake d wf =>
+      (* wf is kept in the label for compatibility and must be false: the connection writes of
+         processFrame are separate steps (IDWrite) *)
       let x := getd s d in
+      if wf then None else
       match rd x, rf x with
-      | RSel, RFPosted REnd =>
-          if wf then None else Some (setd s d (with_rd_rf x RDoneSend RFGone))
-      | RSel, RFPosted (RFrame KBad) =>
-          if wf then None else Some (setd s d (with_rd_rf x RDoneSend RFGone))
-      | RSel, RFPosted (RFrame KDirect) =>
-          if wf then (if may_fail s (other d) then Some (exit_failed s d) else None)
-          else Some (setd s d (with_rd_rf x RSel RFBlocked))
+      | RSel, RFPosted REnd => Some (setd s d (with_rd_rf x RDoneSend RFGone))
+      | RSel, RFPosted (RFrame KBad) => Some (setd s d (with_rd_rf x RDoneSend RFGone))
+      | RSel, RFPosted (RFrame KDirect) => Some (setd s d (with_rd_rf x (RDPend (other d) false None) RFGone))
       | RSel, RFPosted (RFrame (KOwn pre k)) =>
-          if wf then (if pre && may_fail s d then Some (exit_failed s d) else None)
-          else Some (setd s d (mkD (RLock d false (Nat.min k (S (queued x)))) (wr x) (wfailed x) (werr x)
-                                   (chan x) (S (queued x)) RFGone (inflight x)))
+          let k' := Nat.min k (S (queued x)) in
+          Some (setd s d (mkD (if pre then RDPend d true (Some k') else RLock d false k')
+                              (wr x) (wfailed x) (werr x) (chan x) (S (queued x)) RFGone (inflight x)))
       | RSel, RFPosted (RFrame (KWin post k)) =>
-          if wf then None
-          else Some (setd s d (with_rd_rf x (RLock (other d) post (Nat.min k (queued (getd s (other d))))) RFGone))
+          Some (setd s d (with_rd_rf x (RLock (other d) post (Nat.min k (queued (getd s (other d))))) RFGone))
       | _, _ => None
       end
   | ISelErr d =>
@@ -310,44 +328,54 @@ Definition step (c : cfg) (s : state) (l : label) : option state :=
       end
   | IUnlock d wf =>
       let x := getd s d in
+      if wf then None else
       match rd x with
       | REmit t post 0 =>
-          if wf then (if post && may_fail s (other d) then Some (exit_failed s d) else None)
-          else Some (setd s d (with_rd_rf x RSel RFBlocked))
+          Some (setd s d (if post then with_rd x (RDPend (other d) false None) else with_rd_rf x RSel RFBlocked))
+      | _ => None
+      end
+  | IDWrite d wf =>
+      (* the reader's write under destMu completes or fails; it needs the mutex (not leaked) and a
+         destination that takes the bytes *)
+      let x := getd s d in
+      match rd x with
+      | RDPend t credit cont =>
+          if blocks s t || dleak s t then None
+          else if wf then
+            (if may_fail s t
+             then let s1 := exit_failed s d in
+                  Some (if credit && negb (credit_unlocks c) then set_dleak s1 t else s1)
+             else None)
+          else Some (setd s d (match cont with
+                               | Some k => with_rd x (RLock d false k)
+                               | None => with_rd_rf x RSel RFBlocked
+                               end))
       | _ => None
       end
   | IWrite d wf =>
+      (* drain: after a failed write the writer drops the remaining frames without sending *)
       let x := getd s d in
       match wr x, chan x with
       | WRun, S n =>
-          if wfailed x then
-            (if wf then None
-             else Some (setd s d (mkD (rd x) (wr x) true (werr x) n (queued x) (rf x) (inflight x))))
-          else if blocks s (other d) then None
-          else if wf then
-            (if may_fail s (other d)
-             then Some (set_trig (setd s d
-                    (if werr_buffered c
-                     then mkD (rd x) WRun true true n (queued x) (rf x) (inflight x)
-                     else mkD (rd x) WErrSend true (werr x) n (queued x) (rf x) (inflight x))))
-             else None)
-          else Some (setd s d (mkD (rd x) (wr x) false (werr x) n (queued x) (rf x) (inflight x)))
-      | _, _ => None
-      end
-  | IWriteBlock d =>
-      let x := getd s d in
-      match wr x, chan x with
-      | WRun, S n =>
-          if negb (wfailed x) && blocks s (other d)
-          then Some (setd s d (mkD (rd x) WBlocked false (werr x) n (queued x) (rf x) (inflight x)))
+          if wfailed x && negb wf
+          then Some (setd s d (mkD (rd x) (wr x) true (werr x) n (queued x) (rf x) (inflight x)))
           else None
       | _, _ => None
       end
-  | IWriteUnblock d wf =>
+  | IWTake d =>
+      let x := getd s d in
+      match wr x, chan x with
+      | WRun, S n =>
+          if negb (wfailed x)
+          then Some (setd s d (mkD (rd x) WPend false (werr x) n (queued x) (rf x) (inflight x)))
+          else None
+      | _, _ => None
+      end
+  | IWSend d wf =>
       let x := getd s d in
       match wr x with
-      | WBlocked =>
-          if blocks s (other d) then None
+      | WPend =>
+          if blocks s (other d) || dleak s (other d) then None
           else if wf then
             (if may_fail s (other d)
              then Some (set_trig (setd s d
@@ -378,14 +406,14 @@ Definition step (c : cfg) (s : state) (l : label) : option state :=
       | RExited =>
           let s1 := setd s d (with_rd x RRet) in
           Some (mkS (dc s1) (ds s1) (main s1) (cli s1) (srv s1) (wbroken_c s1) (wbroken_s s1)
-                    (sc_closed s1) (cc_closed s1) (closing s1) true (trig s1))
+                    (sc_closed s1) (cc_closed s1) (closing s1) true (trig s1) (dleak_c s1) (dleak_s s1))
       | _ => None
       end
   | IJoin =>
       match main s, rd (dc s), rd (ds s) with
       | MWait, RRet, RRet =>
           Some (mkS (dc s) (ds s) MReturned (cli s) (srv s) (wbroken_c s) (wbroken_s s)
-                    (sc_closed s || fix_close c) (cc_closed s) (closing s) (done s) (trig s))
+                    (sc_closed s || fix_close c) (cc_closed s) (closing s) (done s) (trig s) (dleak_c s) (dleak_s s))
       | _, _, _ => None
       end
   | ICallerClose =>
@@ -393,7 +421,7 @@ Definition step (c : cfg) (s : state) (l : label) : option state :=
       | MReturned =>
           if cc_closed s then None
           else Some (mkS (dc s) (ds s) (main s) (cli s) (srv s) (wbroken_c s) (wbroken_s s)
-                         (sc_closed s) true (closing s) (done s) (trig s))
+                         (sc_closed s) true (closing s) (done s) (trig s) (dleak_c s) (dleak_s s))
       | _ => None
       end
   end.
@@ -412,8 +440,8 @@ Definition accepts (c : cfg) (ls : list label) : bool :=
 Definition all_internal : list label :=
   [IPreface true; IPreface false; IJoin; ICallerClose]
   ++ flat_map (fun d => [IRead d; IReadEnd d; ITake d false; ITake d true; ISelErr d; ISelClosing d; ISelDone d;
-                         ILock d; ISend d; IAbort d; IUnlock d false; IUnlock d true;
-                         IWrite d false; IWrite d true; IWriteBlock d; IWriteUnblock d false; IWriteUnblock d true;
+                         ILock d; ISend d; IAbort d; IUnlock d false; IUnlock d true; IDWrite d false; IDWrite d true;
+                         IWrite d false; IWrite d true; IWTake d; IWSend d false; IWSend d true;
                          IErrHandoff d; IHandshake d; IStop d]) [Cl; Sv].
 
 Definition enabled (c : cfg) (s : state) (l : label) : bool :=
@@ -458,7 +486,7 @@ Definition census_dir (x : dstate) : list nat :=
     b2n (match rd x with REmit _ _ _ => true | _ => false end);
     b2n (match rd x with RLock _ _ _ => true | _ => false end);
     b2n (match rd x with RDoneSend => true | _ => false end);
-    b2n (match rd x with RExited => true | _ => false end);
+    b2n (match rd x with RExited | RDPend _ _ _ => true | _ => false end);
     b2n (writer_alive (wr x));
     b2n (rf_alive (rf x)) ].
 
@@ -471,8 +499,8 @@ Definition census (s : state) : list nat :=
    the first enabled label of [sched_order]; a write fails as soon as it may. *)
 
 Definition sched_order : list label :=
-  flat_map (fun d => [IWrite d true; IWrite d false; IWriteBlock d; IWriteUnblock d true; IWriteUnblock d false;
-                      IErrHandoff d; ITake d true; ITake d false; IUnlock d true; IUnlock d false;
+  flat_map (fun d => [IWrite d true; IWrite d false; IWTake d; IWSend d true; IWSend d false;
+                      IErrHandoff d; IDWrite d true; IDWrite d false; ITake d false; IUnlock d false;
                       ISelErr d; ISelDone d; ISelClosing d; IAbort d; ISend d; ILock d;
                       IHandshake d; IStop d; IRead d; IReadEnd d]) [Cl; Sv]
   ++ [IPreface true; IJoin; ICallerClose].
@@ -494,7 +522,7 @@ Fixpoint settle (c : cfg) (fuel : nat) (s : state) : state * bool :=
 
 (* the internal-step budget any state needs (see Proofs: measure) *)
 Definition kcost (f : kind) : nat :=
-  match f with KOwn _ k => 7 * k + 10 | KWin _ k => 7 * k + 10 | _ => 10 end.
+  match f with KOwn _ k => 7 * k + 16 | KWin _ k => 7 * k + 16 | _ => 16 end.
 
 Definition rf_rank (f : rfst) : nat :=
   match f with
@@ -507,14 +535,16 @@ Definition rf_rank (f : rfst) : nat :=
 Definition rd_rank (r : rpc) : nat :=
   match r with
   | RNot => 0 | RRet => 0 | RExited => 1 | RDoneSend => 2 | RSel => 3
-  | REmit _ _ k => 7 * k + 6
-  | RLock _ _ k => 7 * k + 7
+  | REmit _ _ k => 7 * k + 9
+  | RLock _ _ k => 7 * k + 10
+  | RDPend _ _ None => 6
+  | RDPend _ _ (Some k) => 7 * k + 11
   end.
 
 Definition dir_measure (x : dstate) : nat :=
   fold_right (fun f n => kcost f + n) 0 (inflight x)
   + rf_rank (rf x) + rd_rank (rd x) + 6 * chan x + b2n (werr x)
-  + match wr x with WGone => 0 | WRun => 1 | WErrSend => 3 | WBlocked => 5 end.
+  + match wr x with WGone => 0 | WRun => 1 | WErrSend => 3 | WPend => 5 end.
 
 Definition measure (s : state) : nat :=
   dir_measure (dc s) + dir_measure (ds s)
